@@ -217,6 +217,8 @@ class JobRunner:
         st['engine_queries'] = eng.queries
         st['engine_query_time'] = round(eng.query_time, 3)
         st['unknown_branches'] = eng.unknown_branches
+        if eng.disagreements:
+            self.errors.append('%s: solver disagreement: cvc5 said unsat where z3 found a model (%d times)' % (ob.id, eng.disagreements))
         st['ast_nodes'] = I.nodes_executed
         st['wall_s'] = round(time.time() - t0, 3)
         return dict(ob=ob.id, cfg=cfg, stats=st, violations=confirmed, errors=self.errors,
